@@ -15,6 +15,8 @@ pub enum Fault {
     Garbage { file: usize, len: u64, seed: u64 },
     /// replace file `file` by a copy of file `other`
     SwapWith { file: usize, other: usize },
+    /// misdirected write: `len` bytes found at `src` are also written at `dst` (same file)
+    CopyRange { file: usize, src: u64, dst: u64, len: u64 },
     /// XOR one byte inside a CRC-protected block and store a fresh, valid CRC-32C for the block
     /// (`block_start .. block_start + block_len` is the data, the 4 CRC bytes follow): damage a
     /// block checksum cannot see, only the pack's global hash can
@@ -35,6 +37,7 @@ impl Fault {
             Fault::Garbage { .. } => "garbage",
             Fault::SwapWith { .. } => "swap",
             Fault::FlipFix { .. } => "flip-with-fresh-block-crc",
+            Fault::CopyRange { .. } => "misdirected-write",
             Fault::Multi(_) => "multi",
         }
     }
@@ -50,6 +53,7 @@ impl Fault {
             Fault::Empty { file } => format!("empty:{file}"),
             Fault::Garbage { file, len, seed } => format!("garbage:{file}:{len}:{seed}"),
             Fault::SwapWith { file, other } => format!("swap:{file}:{other}"),
+            Fault::CopyRange { file, src, dst, len } => format!("copy:{file}:{src}:{dst}:{len}"),
             Fault::FlipFix { file, pos, mask, block_start, block_len } => format!("flipfix:{file}:{pos}:{mask}:{block_start}:{block_len}"),
             Fault::Multi(v) => format!(
                 "multi:{}",
@@ -105,6 +109,12 @@ impl Fault {
                 len: n(2)?,
                 seed: n(3)?,
             },
+            "copy" => Fault::CopyRange {
+                file: n(1)? as usize,
+                src: n(2)?,
+                dst: n(3)?,
+                len: n(4)?,
+            },
             "flipfix" => Fault::FlipFix {
                 file: n(1)? as usize,
                 pos: n(2)?,
@@ -132,6 +142,7 @@ impl Fault {
             | Fault::Empty { file }
             | Fault::Garbage { file, .. }
             | Fault::SwapWith { file, .. }
+            | Fault::CopyRange { file, .. }
             | Fault::FlipFix { file, .. } => vec![*file],
             Fault::Multi(v) => {
                 let mut f: Vec<usize> = v.iter().flat_map(|x| x.files()).collect();
@@ -204,6 +215,16 @@ impl Fault {
                 let mut rng = Rng::derive(*seed, "garbage", 0);
                 files[*file] = rng.bytes(*len as usize);
                 true
+            }
+            Fault::CopyRange { file, src, dst, len } => {
+                let f = &mut files[*file];
+                let n = f.len();
+                let (s0, d0) = ((*src as usize).min(n), (*dst as usize).min(n));
+                let l = (*len as usize).min(n - s0).min(n - d0);
+                let chunk: Vec<u8> = f[s0..s0 + l].to_vec();
+                let changed = f[d0..d0 + l] != chunk[..];
+                f[d0..d0 + l].copy_from_slice(&chunk);
+                changed
             }
             Fault::FlipFix { file, pos, mask, block_start, block_len } => {
                 let f = &mut files[*file];
